@@ -12,13 +12,6 @@ open Dashu.Model
 
 -- ---------------------------------------------------------------- base/src/ring/gcd.rs
 
-/-- `trailing_zeros` of a non-zero number (structural on fuel = the number itself) -/
-def tzLoop : Nat → Nat → Nat
-  | 0, _ => 0
-  | fuel + 1, n => if n % 2 = 1 ∨ n = 0 then 0 else tzLoop fuel (n / 2) + 1
-
-def trailingZeros (n : Nat) : Nat := tzLoop n n
-
 /-- `unchecked_gcd`: the binary gcd loop on odd operands (`a -= b; a >>= a.trailing_zeros()`) -/
 def binGcdLoop : Nat → Nat → Nat → Nat
   | 0, a, _ => a
